@@ -30,6 +30,22 @@ checks = {
    text="authority gating and third-party frame (balance, stake, credit, selection of every non-signer) checked around every accepted tx of all deviation-bounded histories; every privileged message is also offered with a non-authority signer",
    note="signers are taken from the protobuf cosmos.msg.v1.signer annotation via the app codec",
    technique="deviation-bounded exhaustive exploration of the real app with a frame monitor"),
+ "C01": dict(engine="seams", level="model_checking",
+   text="whole histories are re-executed on the real app built from seam-rewritten sources: once per dynamic map-range occurrence and alternative key order, under an adversarial wall clock, under a different node configuration and plainly a second time; per-block digests (all stores + events) and tx accept vectors must be identical",
+   note="map ranges inside cosmos-sdk/cometbft/go-ethereum are not seamed; gas not in the digest; seam neutrality is self-checked by the plain re-run of the rewritten build",
+   technique="exhaustive enumeration of map-iteration orders / clock / config deviations over deviation-bounded histories (differential replay, stateless model checking of the implementation)"),
+ "C06": dict(engine="enum", level="exploration",
+   text="every report list up to n reporters over boundary value/power alphabets in every arrival order is fed to the real WeightedMedian/WeightedMode and compared with the definition; for the mode every iteration order of its frequency map is forced through the seam",
+   note="values outside the alphabet are not covered; mode powers capped at 1000 in the alphabet (O(power) loop)",
+   technique="bounded-exhaustive input enumeration against a definition-level reference, with exhaustive map-order enumeration via the seam"),
+ "C15": dict(engine="enum", level="exploration",
+   text="full products of boundary alphabets for every encoder compared byte-for-byte with an independent ABI encoder + keccak driven by the parsed contract sources; signatures made the chain's way are checked against a transcription of _verifySig",
+   note="no EVM/solc available: the contract side is an independent implementation of the ABI spec applied to the parsed Solidity text; ecrecover via go-ethereum",
+   technique="bounded-exhaustive input enumeration against an independent reference derived from the contract sources"),
+ "C18": dict(engine=E1, level="model_checking",
+   text="every transaction of up to 3/4 staking messages over boundary amounts and baseline/current ratios is offered to the real ante decorator; tracker refresh rule monitored on all deviation-bounded histories",
+   note="current bonded total supplied by a stub staking keeper in the enumeration part (the decorator only reads it); one direction as stated",
+   technique="bounded-exhaustive enumeration of transactions + deviation-bounded exploration with a tracker monitor"),
 }
 design = {"C02": "§3 C02", "C03": "§3 C03", "C04": "§3 C04", "C05": "§3 C05", "C08": "§3 C08", "C19": "§3 C19"}
 
@@ -46,6 +62,10 @@ m = {
  "engines": [
   {"name": "chainmc", "path": "harness/mc", "serves_properties": sorted(k for k, v in checks.items() if v["engine"] == E1),
    "kind_free_text": "hand-written explicit-state / deviation-bounded explorer over the real application (copy-on-write branches of the real multistore), monitors, lock-step reference models, branch probes"},
+  {"name": "seams", "path": "harness/cmd/seamgen + harness/zzseam", "serves_properties": sorted(k for k, v in checks.items() if v["engine"] == "seams") + ["C06"],
+   "kind_free_text": "AST rewriter routing every map range / time.Now of the repository's packages through an explorer-controlled seam; differential replay over all orders"},
+  {"name": "enum", "path": "harness/mc (c06.go, c15.go, evmref.go)", "serves_properties": sorted(k for k, v in checks.items() if v["engine"] == "enum"),
+   "kind_free_text": "bounded-exhaustive input enumeration of pure functions against definition-level / contract-derived references"},
  ],
  "checks": [],
  "not_applicable": [],
